@@ -10,12 +10,12 @@ import (
 type SExpr interface{ sexpr() }
 
 type (
-	SIdent struct{ Name string }
-	SIntL  struct{ Val string }
+	SIdent  struct{ Name string }
+	SIntL   struct{ Val string }
 	SFloatL struct{ Val string }
-	SBoolL struct{ Val bool }
-	SStr   struct{ Val string }
-	SBin   struct {
+	SBoolL  struct{ Val bool }
+	SStr    struct{ Val string }
+	SBin    struct {
 		Op   string
 		L, R SExpr
 	}
@@ -53,8 +53,8 @@ type (
 )
 
 func (SIdent) sexpr()      {}
-func (SIntL) sexpr()        {}
-func (SFloatL) sexpr()      {}
+func (SIntL) sexpr()       {}
+func (SFloatL) sexpr()     {}
 func (SBoolL) sexpr()      {}
 func (SStr) sexpr()        {}
 func (SBin) sexpr()        {}
@@ -495,10 +495,10 @@ type GhostVar struct {
 type LoopSpec struct {
 	Ghosts      []GhostVar
 	Unreachable bool
-	Invariants []Clause
-	Decreases  *Clause
-	DecStar    bool
-	Modifies   []Clause
+	Invariants  []Clause
+	Decreases   *Clause
+	DecStar     bool
+	Modifies    []Clause
 }
 
 type Clause struct {
@@ -530,7 +530,7 @@ type Contract struct {
 	WithinLen  bool
 	PanicsWhen []Clause
 	MinObl     int
-	Pure       bool // no heap effects at all (no allocation either)
+	Pure       bool     // no heap effects at all (no allocation either)
 	Lemmas     []string // auto lemmas assumed (as quantified facts) while verifying this function
 	Allocates  []string
 	NilRecv    bool // the method tolerates a nil receiver: not assumed non-nil, not checked at call sites
@@ -614,7 +614,24 @@ func (ss *SpecSet) ParseSpecText(lines []string, wheres []string, pkg string) er
 			first = t[:j]
 		}
 		if clauseKW[first] {
-			raws = append(raws, rawClause{first, strings.TrimSpace(t[len(first):]), wheres[i]})
+			rest := strings.TrimSpace(t[len(first):])
+			if first == "loop" {
+				// "loop N: invariant X" on one line is "loop N:" followed by "invariant X"
+				if j := strings.Index(rest, ":"); j >= 0 && strings.TrimSpace(rest[j+1:]) != "" {
+					tail := strings.TrimSpace(rest[j+1:])
+					kw := tail
+					if k := strings.IndexAny(tail, " \t:"); k >= 0 {
+						kw = tail[:k]
+					}
+					if !clauseKW[kw] {
+						return fmt.Errorf("%s: unknown clause %q after loop ordinal", wheres[i], kw)
+					}
+					raws = append(raws, rawClause{"loop", rest[:j+1], wheres[i]})
+					raws = append(raws, rawClause{kw, strings.TrimSpace(tail[len(kw):]), wheres[i]})
+					continue
+				}
+			}
+			raws = append(raws, rawClause{first, rest, wheres[i]})
 		} else {
 			if len(raws) == 0 {
 				return fmt.Errorf("%s: continuation line without clause: %q", wheres[i], t)
@@ -783,8 +800,12 @@ func (ss *SpecSet) ParseSpecText(lines []string, wheres []string, pkg string) er
 			if _, err := fmt.Sscanf(strings.TrimSuffix(strings.TrimSpace(rc.text), ":"), "%d", &n); err != nil {
 				return fmt.Errorf("%s: bad loop ordinal %q", rc.where, rc.text)
 			}
-			curLoop = &LoopSpec{}
-			cur.Loops[n] = curLoop
+			if ls := cur.Loops[n]; ls != nil {
+				curLoop = ls
+			} else {
+				curLoop = &LoopSpec{}
+				cur.Loops[n] = curLoop
+			}
 		case "invariant":
 			if curLoop == nil {
 				return fmt.Errorf("%s: invariant outside loop", rc.where)
